@@ -12,6 +12,7 @@ CONSTANTS
  Budget = 4
  Depth = 2
  Rich = FALSE
+ Many = FALSE
  Cfg <- MCfg
  Reqs <- MReqs
  InitVals = "zero"
